@@ -211,6 +211,10 @@ def StageReference(dataReference,  # type: experiment.model.graph.DataReference
                 dest = os.path.join(dest, destName)
                 shutil.copytree(reference, dest, symlinks=True)
             else:
+                destFile = os.path.join(dest, os.path.split(reference)[1])
+                if os.path.islink(destFile):
+                    # VV: a link with the same name was staged earlier: copying would write through it to its target
+                    raise OSError(errno.EEXIST, 'Will not copy over a symbolic link', destFile)
                 shutil.copy(reference, dest)
         elif dataReference.method == experiment.model.graph.DataReference.Link:
             name = os.path.split(reference)[1]
@@ -226,14 +230,19 @@ def StageReference(dataReference,  # type: experiment.model.graph.DataReference
                 #(due to charactwise matching performed)
                 target = os.path.join(os.path.realpath(dest), '')
                 for f in tar.getmembers():
-                    newPath = os.path.join(location.path, f.name)
+                    # VV: resolve ".." segments and links that already exist under dest before comparing
+                    newPath = os.path.join(os.path.realpath(os.path.join(target, f.name)), '')
                     #if target includes / then commonprefix will include it
                     if os.path.commonprefix([target, newPath]) != target:
                         raise tarfile.ReadError('Archive contains files that would be extracted outside of destination')
 
-                tar.extractall(dest)
+                if hasattr(tarfile, 'data_filter'):
+                    # VV: also rejects link members that point outside dest and writes through extracted links
+                    tar.extractall(dest, filter='data')
+                else:
+                    tar.extractall(dest)
                 tar.close()
-    except (shutil.Error, tarfile.ReadError, OSError) as stageError:
+    except (shutil.Error, tarfile.TarError, OSError) as stageError:
         raise experiment.model.errors.DataReferenceCouldNotStageError(dataReference, stageError)
 
 
